@@ -1287,6 +1287,35 @@ func (a *ownAnalysis) isPairElement(e ast.Expr) bool {
 		}
 		return isProducerCall(se.X)
 	}
+	// … or the buffer a producer was asked to fill: `m.Entries(buf)` leaves two-cell pairs in buf
+	filledBuf := func(x ast.Expr) bool {
+		bo := identObj(info, x)
+		if bo == nil {
+			return false
+		}
+		hit := false
+		ast.Inspect(a.u.Decl.Body, func(m ast.Node) bool {
+			ce, ok := m.(*ast.CallExpr)
+			if !ok || ce.Pos() >= e.Pos() {
+				return true
+			}
+			fn := originOf(Callee(info, ce))
+			if fn == nil || !pairProducerNames[FuncName(fn)] {
+				return true
+			}
+			for _, arg := range ce.Args {
+				if identObj(info, arg) == bo {
+					hit = true
+				}
+			}
+			return true
+		})
+		return hit
+	}
+	{
+		prev := listOfPairs
+		listOfPairs = func(x ast.Expr) bool { return prev(x) || filledBuf(x) }
+	}
 	if id, ok := e.(*ast.Ident); ok {
 		if d := soleDef(info, a.u.Decl.Body, id); d != nil {
 			if ie, ok := ast.Unparen(d).(*ast.IndexExpr); ok {
